@@ -55,6 +55,14 @@ func (h Handler) HandleIQ(iq stanza.IQ, r xmlstream.TokenReadEncoder, start *xml
 					}},
 				}))
 				if err != nil {
+					// The reply cannot be written (the peer has gone away). List is
+					// still blocked handing over its next entry: take what it has
+					// left so that its goroutine ends instead of staying behind for
+					// every request that fails.
+					go func() {
+						for range c {
+						}
+					}()
 					return err
 				}
 			}
